@@ -170,3 +170,63 @@ def run_harness(check, d, title, src, defs=(), unwind=2, flags=(), backend=(), t
     part['wall_s_total'] = round(time.time() - t0, 2)
     check.add_part(part, nob, ndis, violations=viols, problems=problems, samples=samples, queries=1 + wq,
                    solver_s=r['wall_s'], states=max(1, nob), transitions=max(1, nob))
+
+
+# ---------------------------------------------------------------------------------------------------------------------
+# running E2 harnesses in a child process while the parent explores the E1 families
+class _Recorder:
+    """stands in for a checklib.Check inside the child: records the add_part calls"""
+    def __init__(s):
+        s.calls = []
+
+    def add_part(s, part, obligations, discharged, **kw):
+        s.calls.append((part, obligations, discharged, kw))
+
+
+def spawn(d, specs):
+    """specs: list of dict(title, src, defs, unwind, timeout, backend, link_lib, flags).  returns a handle for collect()"""
+    import pickle, tempfile
+    fd, spec_path = tempfile.mkstemp(prefix='e2spec.', dir=d)
+    os.close(fd)
+    with open(spec_path, 'wb') as f:
+        pickle.dump({'d': d, 'specs': specs}, f)
+    out_path = spec_path + '.out'
+    env = dict(os.environ, VERIF_KEEP='1')        # the parent owns the scratch directory
+    p = subprocess.Popen([sys.executable, os.path.abspath(__file__), '--worker', spec_path, out_path], env=env,
+                         stdout=subprocess.PIPE, stderr=subprocess.STDOUT, text=True)
+    return {'proc': p, 'out': out_path, 'specs': specs}
+
+
+def collect(check, handle):
+    import pickle
+    log, _ = handle['proc'].communicate()
+    if handle['proc'].returncode != 0 or not os.path.exists(handle['out']):
+        check.add_part({'part': 'E2 worker', 'error': (log or '')[-800:]}, 1, 0, problems=['E2 worker failed: ' + (log or '')[-600:]])
+        return
+    with open(handle['out'], 'rb') as f:
+        calls = pickle.load(f)
+    for part, ob, dis, kw in calls:
+        check.add_part(part, ob, dis, **kw)
+
+
+def _worker(spec_path, out_path):
+    import pickle
+    from concurrent.futures import ThreadPoolExecutor
+    with open(spec_path, 'rb') as f:
+        job = pickle.load(f)
+    recs = []
+
+    def one(sp):
+        r = _Recorder()
+        run_harness(r, job['d'], sp['title'], sp['src'], sp.get('defs', ()), unwind=sp.get('unwind', 2), flags=sp.get('flags', ()),
+                    backend=sp.get('backend', ()), timeout=sp.get('timeout', 600), link_lib=sp.get('link_lib', False))
+        return r.calls
+    with ThreadPoolExecutor(max_workers=max(1, min(4, len(job['specs'])))) as ex:
+        for calls in ex.map(one, job['specs']):
+            recs += calls
+    with open(out_path, 'wb') as f:
+        pickle.dump(recs, f)
+
+
+if __name__ == '__main__' and len(sys.argv) >= 4 and sys.argv[1] == '--worker':
+    _worker(sys.argv[2], sys.argv[3])
